@@ -96,6 +96,7 @@ fn expected(b: &[u8], m: Mutation) -> (Vec<u8>, Expect, &'static str) {
 }
 
 fn exec<D: Doc>(p: &PrepDoc<D>, m: Mutation, via: Via, scratch: &std::path::Path) -> Result<(u64, &'static str), Violation> {
+    crate::ctx::scrub_stack();
     if let Mutation::Flip { byte, bit } = m {
         if byte >= 29 || bit >= 8 {
             return Ok((0, "out-of-range"));
